@@ -24,6 +24,7 @@ claimed["C18"] = ("other", "Bounded symbolic execution of every API entry point 
 claimed["C20"] = ("other", "Finite matrix of universal constructors x argument forms x element types with symbolic contents, each compared with the class-level constructor; CDCN-source form via a stub notation with symbolic parse result; Stack/Queue sizes spanning the default capacity; Association for ten type pairs.", "symbolic execution of go/ssa + SMT (z3), form/type matrix enumerated", "3/C20")
 claimed["C07"] = ("other", "Bounded symbolic execution of the real reflective collator through the engine's reflect model on triples of symbolic values per type and shape: reflexivity, mirror, transitivity, natural order, depth restoration, history independence, map-order independence. Floats are IEEE terms (NaN, signed zeros included); complex numbers only at enumerated special values. Listed known findings: NaN and special complex values.", "symbolic execution of go/ssa with a reflect model + SMT (z3, cvc5 for 64-bit order / floats)", "3/C07", "The reflect model is part of the trusted base; complex magnitude/phase are outside SMT reach (special values enumerated).")
 claimed["C08"] = ("other", "Bounded symbolic execution of CompareValues/RankValues: equivalence laws, agreement with ranking, rebuilt copies equal, every single-point mutation unequal (symbolic replacement leaf: equal iff leaf equal), cyclic values end in the depth-limit panic and the same collator keeps working, List/Set membership agreement.", "symbolic execution of go/ssa with a reflect model + SMT (z3, cvc5)", "3/C08")
+claimed["C12"] = ("other", "Bounded symbolic execution of the real ParseSource (scanner goroutine under a coroutine scheduler, token queue, regex VM over the real regexp/syntax program, parser) on every string of L arbitrary bytes, on every prefix / single-byte substitution / deletion of five valid documents with an arbitrary byte, on context mismatches and on long tails after an error: returns or a located textual diagnostic, never a run-time error, no goroutine left.", "symbolic execution of go/ssa (goroutines as coroutines, regex VM) + SMT (z3)", "3/C12", "Canonical schedule for the scanner goroutine; inputs longer than L only as the listed documents with one arbitrary byte.")
 reasons = {}
 
 checks = []
